@@ -501,7 +501,7 @@ func trimVals(t sym.Tape) map[string]uint64 {
 
 type crossResult struct {
 	Queries, Runs, Agree, Disagree, NoVerdict int
-	Detail                                   []string
+	Detail                                    []string
 }
 
 var lastCross crossResult
@@ -575,7 +575,7 @@ func writeEvidence(def *CheckDef, tier string, seed int64, results []*sym.JobRes
 	obligations, trivial := 0, 0
 	covers := map[string]int{}
 	asserts := map[string]int{}
-	
+
 	var samples []interface{}
 	pathsByEnd := map[string]int{}
 	var maxQ time.Duration
